@@ -253,7 +253,7 @@ def table_to_frame(spec, replica: str):
 
         data = {}
         for c in spec["cols"]:
-            dt = {"i": pl.Int64, "s": pl.String, "f": pl.Float64}[c["type"]]
+            dt = {"i": pl.Int64, "I": pl.Int64, "s": pl.String, "f": pl.Float64}[c["type"]]
             data[c["name"]] = pl.Series(c["name"], list(c["values"]), dtype=dt)
         return pl.DataFrame(data)
     import pandas as pd
@@ -263,7 +263,7 @@ def table_to_frame(spec, replica: str):
         if c["type"] == "f":
             data[c["name"]] = pd.Series([float("nan") if v is None else v for v in c["values"]], dtype="float64")
         else:
-            data[c["name"]] = pd.Series(list(c["values"]), dtype="int64" if c["type"] == "i" else "str")
+            data[c["name"]] = pd.Series(list(c["values"]), dtype="int64" if c["type"] in ("i", "I") else "str")
     return pd.DataFrame(data)
 
 
@@ -280,13 +280,17 @@ def _gen_table(rd, shape) -> Dict[str, Any]:
     if shape in (0, 1, 2):
         cols.append({"name": "x", "type": "i", "values": [rd.randrange(-5, 20) for _ in range(n)]})
     if shape in (1, 2):
-        gv = ["p", "q"] if rd.random() < 0.7 else ["p", "q", "P", "o'k", "\u00e9", " p", ""]
+        gv = ["p", "q"] if rd.random() < 0.7 else ["p", "q", "P", "o'k", "\u00e9", " p", "", "007", "1e5", "q "]
         cols.append({"name": "g", "type": "s", "values": [rd.choice(gv) for _ in range(n)]})
     if shape in (2, 3):
         cols.append({"name": "y", "type": "i", "values": [rd.randrange(0, 9) for _ in range(n)]})
+    if rd.random() < 0.15:
+        # integers beyond int32 / float53, carried along only (arithmetic on them would overflow int64 on the back ends)
+        cols.append({"name": "b", "type": "I", "values": [rd.choice([7, 2 ** 31 + 5, 2 ** 53 + 1, -(2 ** 40)]) for _ in range(n)]})
     if rd.random() < 0.3:
         # a payload column with nulls that pipelines only carry along (select / drop / rename / join coalescing), never compute on
-        cols.append({"name": "p", "type": "f", "values": [None if rd.random() < 0.4 else rd.randrange(-4, 9) / 2.0 for _ in range(n)]})
+        cols.append({"name": "p", "type": "f",
+                     "values": [None if rd.random() < 0.4 else rd.choice([rd.randrange(-4, 9) / 2.0, -0.0, 1e-7, 123456.789]) for _ in range(n)]})
     return {"cols": cols}
 
 
@@ -330,7 +334,7 @@ def _gen_steps(r, cols: Dict[str, str], belief, depth=0, allow_join=True, only=N
                 steps.append({"t": "rename", "map": {new: old}})
                 cols[new] = cols.pop(old)
         elif kind == "project" and ints:
-            by_c = [c for c in ("k", "g") if c in cols] or [c for c in names if cols[c] != "f"][:1]
+            by_c = [c for c in ("k", "g") if c in cols] or [c for c in names if cols[c] not in ("f", "I")][:1]
             if not by_c:
                 continue
             by = [r.choice(by_c)]
